@@ -100,7 +100,7 @@ def norm_ast(src):
         if isinstance(n, ast.Constant) and isinstance(n.value, str):
             n.value = "".join(n.value.split())
         elif isinstance(n, ast.Constant) and isinstance(n.value, bytes):
-            n.value = b"".join(n.value.split())
+            n.value = bytes(b for b in n.value if chr(b) not in PYWS)     # (bytes.split() does not know \x1c..\x1f)
     return ast.dump(tree, include_attributes=False)
 
 
